@@ -93,6 +93,12 @@ CHECKS = {
         "Trusted: reference typing (which edits are ill-formed, which classes are allowed).",
         "DESIGN.md 3 C20",
     ),
+    "C07": (
+        "explicit-state BFS over three-engine programs; real row-moving Processor; histories of repeated process() on shared nodes",
+        "Every program over a three-engine alphabet (transfers every direction, materializations at every position, chains with statically empty branches, joins after transfer back to SQL) up to the depth bound is processed three times by a Processor subclass that really moves rows between SQLite and the iteration engine; result rows vs reference, input-tree fingerprint before/after, result columns/engine, hook log discipline and at-most-once materialization are judged on every call; sibling trees share their parent's nodes.",
+        "Trusted: RealProcessor harness (vf/realize.py), reference evaluator, SQLite.",
+        "DESIGN.md 3 C07",
+    ),
 }
 
 NOT_YET = "check not built yet in this revision (planned, see DESIGN.md section 3)"
